@@ -32,7 +32,8 @@ def jobs_for(tier):
         tpls = corpus.select(feats={'basic', 'ext', 'combo', 'manyadd'}, exclude={'real', 'spill'}) + \
             corpus.generated(quick=True, exclude={'real'})
     else:
-        tpls = corpus.TEMPLATES + corpus.generated()
+        # REAL is outside (binary REAL coding goes through float/struct C code that the proxies do not model)
+        tpls = [t for t in corpus.TEMPLATES if 'real' not in t['feats']] + corpus.generated(exclude={'real'})
     for t in tpls:
         for codec in C.BINARY_CODECS:
             if 'spill' in t['feats'] and codec not in ('per', 'uper'):
